@@ -816,7 +816,7 @@ func init() {
 		SelfTest: ref.SelfTestMurmur,
 		Streams: []*vf.Stream{
 			{Name: "murmur", N: func(t vf.Tier) int { return 65 * t.Sz(600, 6000) }, Run: c09murmurCase},
-			{Name: "history", N: func(t vf.Tier) int { return 64 + t.Sz(60000, 1200000) }, Run: c09historyCase},
+			{Name: "history", N: func(t vf.Tier) int { return 64 + t.Sz(200000, 1200000) }, Run: c09historyCase},
 			{Name: "sizing", N: func(t vf.Tier) int { return len(c09elements)*len(c09fprates) + t.Sz(150000, 2000000) }, Run: c09sizingCase},
 		},
 	})
